@@ -111,7 +111,7 @@ PROPS = {
     },
     'C03': {
         'extra_props': ['C02b', 'C00_pipeline'],
-        'ops': [('scan', 1500, 150000, ('-mix', 'c03')), ('scan', 200, 10000, ('-mix', 'c02')), ('scanseq', 60, 3000), ('pp', 30, 2000), ('aggregate', 300, 20000), ('html', 100, 5000), ('scan', 1000, 14424, ('-mix', 'kinds')), ('step', 400, 20000), ('sigops', 300, 10000)],
+        'ops': [('scan', 1500, 150000, ('-mix', 'c03')), ('scan', 200, 10000, ('-mix', 'c02')), ('scanseq', 60, 3000), ('pp', 30, 2000), ('aggregate', 300, 20000), ('html', 100, 5000), ('scan', 1000, 14424, ('-mix', 'kinds')), ('step', 400, 20000), ('sigops', 300, 10000), ('ast', 40, 400)],
         'corr': ['corr:panic', 'corr:snap', 'corr:err', 'corr:seq', 'corr:step-trace'],
         'prop': ['C03'],
         'nontrivial': ['kind=', 'calls='],
@@ -204,14 +204,18 @@ PROPS = {
                 'must equal the one the tagged model predicts; thorough adds a go run -race driver',
     },
     'C19': {
-        'ops': [('augment', 250, 10000), ('progs', 10, 150)],
-        'corr': ['corr:augment', 'corr:panic'],
+        'extra_props': ['C19b'],
+        'ops': [('augment', 250, 10000), ('progs', 10, 150), ('ast', 60, 600)],
+        'corr': ['corr:augment', 'corr:panic', 'corr:ast-select', 'corr:ast-types', 'corr:ast-match', 'corr:ast-wf'],
         'prop': ['C19'],
-        'nontrivial': ['truth'],
+        'nontrivial': ['truth', 'found'],
         'input_fields': 3,
         'rule': 'generated Go source trees (functions and pointer-receiver methods with 0..5 parameters over bool, int*, uint*, float32/64, string, slices, pointers, maps, chans, funcs) + a synthetic traceback whose words encode '
                 'known values (one/two/three words per kind, sub-word integers zero-extended); ScanSnapshot with GuessPaths+AnalyzeSources; every rendered argument must equal the value the generator chose; '
-                'mismatching sources (missing, unparsable, line beyond the file, fewer / extra words) must leave Values and every other field identical to the run without source analysis; model = extracted augment_call',
+                'mismatching sources (missing, unparsable, line beyond the file, fewer / extra words) must leave Values and every other field identical to the run without source analysis; model = extracted augment_call; '
+                'ast (hook VerifFuncTypes): generated Go files (one-line functions, closures, methods, generics, bad receiver lists, CRLF, no final newline) and standard-library files x lines x frame names '
+                '(the enclosing declaration, closure names, neighbours, hostile names): getFuncAST + matchFuncDecl + extractArgumentsType compared with Model/Source.v; a selected declaration must be the one the frame names, '
+                'a line inside a function queried with its traceback name must be augmented',
     },
     'C20': {
         'race_driver': True,
